@@ -135,8 +135,6 @@ LAM_ALL = ("'<' + $1.value + str($1.start) + '|' + str($2 and $2.value) + '|' + 
 LAM_UP = ('$.value.toUpper() + $1.value', lambda e: _v(e, '1', 'value').upper() + _v(e, '1', 'value'))
 LAM_EMPTY = ("''", lambda e: '')
 
-SELMAP = dict([SEL_ALL] + SELECTORS + [LAM_ALL, LAM_UP, LAM_EMPTY])
-
 # regex forms: name -> (yaql text, model call on (rx, s)).  `$r` is the object returned by regex(...).
 CORE_FORMS = [
     ('matches', '$r.matches($s)', lambda rx, s: R.matches(rx, s)),
